@@ -55,7 +55,7 @@ func loadCorpus() []corpusFile {
 
 var dict = []string{
 	"{", "}", "{", "}", "*", "/", "/a", "/a*", "/api/*", "@m", "@m", "\"", "`", "\\", "#", "<<EOF", "EOF",
-	"import", "import x", "import *", "import Caddyfile", "import s a b", "(s)", "{args[0]}", "{args[:]}", "{args[1:]}", "{block}", "{blocks.a}",
+	"import", "import x", "import *", "import Caddyfile", "import s a b", "import ../inc/ok", "import ../inc/a", "import ../inc/self", "import ../inc/snip", "import incsnip", "import ../inc/*", "(s)", "{args[0]}", "{args[:]}", "{args[1:]}", "{block}", "{blocks.a}",
 	"{$C16_ENV}", "{$C16_UNSET}", "{$C16_UNSET:dflt}", "{env.X}", "{http.request.uri}", "{path}", "{",
 	"respond", "handle", "handle_path", "handle_errors", "route", "redir", "rewrite", "uri", "root", "file_server", "reverse_proxy",
 	"php_fastcgi", "header", "request_header", "encode", "templates", "log", "tls", "bind", "vars", "map", "method", "try_files",
